@@ -64,6 +64,53 @@ func HarnessC11Buffered()      { c11Replay(2, 1, 1, false) }
 func HarnessC11PreSub()        { c11Replay(1, 2, 0, true) }
 func HarnessC11TwoSubsTwoMsgs() { c11Replay(2, 2, 0, false) }
 
+// HarnessC11SameUUID: two different messages that carry the same (here: empty) UUID - the UUID is a debugging
+// aid, nothing in the Pub/Sub may key on it: a later subscription gets both.
+func HarnessC11SameUUID() {
+	g := NewGoChannel(Config{Persistent: true}, watermill.NopLogger{})
+	uuid := vrt.PickStr("uuid", "", "same")
+	vrt.Assert(g.Publish("t", message.NewMessage(uuid, message.Payload("first"))) == nil, "publish")
+	vrt.Assert(g.Publish("t", message.NewMessage(uuid, message.Payload("second"))) == nil, "publish")
+	ch, err := g.Subscribe(context.Background(), "t")
+	vrt.Assert(err == nil, "subscribe")
+	counts := map[string]int{}
+	go func() {
+		vrt.MayBlock()
+		for m := range ch {
+			counts[string(m.Payload)]++
+			m.Ack()
+		}
+	}()
+	vrt.AtQuiescence(func() {
+		vrt.Assert(counts["first"] == 1 && counts["second"] == 1, "every subscription receives every successfully published message exactly once")
+	})
+}
+
+// HarnessC11SubscribeTwiceThenConsume: a caller opens two subscriptions on a topic with history before it starts
+// consuming either (blocking mode or not): both Subscribe calls return, and both subscriptions get the history.
+func HarnessC11SubscribeTwiceThenConsume() {
+	g := NewGoChannel(Config{Persistent: true, BlockPublishUntilSubscriberAck: vrt.Bool("blocking")}, watermill.NopLogger{})
+	vrt.Assert(g.Publish("t", newMsg(0)) == nil, "publish into the log (nobody subscribed yet)")
+	ch1, err := g.Subscribe(context.Background(), "t")
+	vrt.Assert(err == nil, "first subscribe")
+	ch2, err := g.Subscribe(context.Background(), "t") // main must get past this call
+	vrt.Assert(err == nil, "second subscribe")
+	got := [2]int{}
+	for i, ch := range []<-chan *message.Message{ch1, ch2} {
+		i, ch := i, ch
+		go func() {
+			vrt.MayBlock()
+			for m := range ch {
+				got[i]++
+				m.Ack()
+			}
+		}()
+	}
+	vrt.AtQuiescence(func() {
+		vrt.Assert(got[0] == 1 && got[1] == 1, "every subscription receives every published message exactly once")
+	})
+}
+
 // HarnessC11TwoPublishers: the very first Publish calls on a fresh topic come from two goroutines at once; a
 // subscription made afterwards still gets both messages, once each.
 func HarnessC11TwoPublishers() {
